@@ -22,7 +22,10 @@ n = 0
 with open(kf, "a") as out:
     for l in open(dump):
         d = json.loads(l)
-        if only and only not in d["signature"]:
+        if "prop" in d["sig"]:
+            d["property"] = d["sig"].pop("prop")
+            d["signature"] = "|".join("%s=%s" % (k, d["sig"][k]) for k in sorted(d["sig"]))
+        if only and only not in d["signature"] and only != d["property"]:
             continue
         if (d["property"], d["signature"]) in have:
             continue
